@@ -23,26 +23,47 @@ def write_if_changed(path, text):
     return True
 
 
+# what each translator module writes (used to poison exactly those files when the module refuses the source)
+OUTPUTS = {'gen_tables': ['Tables.v'], 'gen_periodic': ['Periodic.v'], 'gen_transformers': ['Transformers.v'],
+           'gen_network': ['NetworkGen.v'], 'gen_drawing': ['DrawingGen.v'], 'gen_circuit': ['CircuitGen.v'],
+           'gen_saveload': ['SaveLoadGen.v'], 'gen_annotation': ['AnnotationGen.v']}
+
+
+def poison(module, reason):
+    """the module refused the current source: its previous output no longer describes the code.  Replace it by a file that does not
+    compile, so that every theorem depending on it counts as broken (never checked against a stale model)."""
+    outs = OUTPUTS.get(module)
+    if outs is None:
+        outs = [f for f in os.listdir(GEN) if f.endswith('.v')]
+    text = ('(* translator ' + module + ' refused the current source: ' + reason.replace('*)', '* )') + ' *)\n'
+            'Definition translator_refused_the_source : False := I.\n')
+    for f in outs:
+        write_if_changed(os.path.join(GEN, f), text)
+
+
 def main():
     os.makedirs(GEN, exist_ok=True)
-    mods = []
     here = os.path.dirname(os.path.abspath(__file__))
     sys.path.insert(0, here)
     import importlib
+    failed = 0
     for name in sorted(os.listdir(here)):
-        if name.startswith('gen_') and name.endswith('.py'):
-            mods.append(importlib.import_module(name[:-3]))
-    try:
-        for m in mods:
+        if not (name.startswith('gen_') and name.endswith('.py')):
+            continue
+        mod = name[:-3]
+        try:
+            m = importlib.import_module(mod)
             for fname, text in m.generate(SRC).items():
                 write_if_changed(os.path.join(GEN, fname), text)
-    except Unsupported as e:
-        print(f'py2v: unsupported construct: {e}')
-        return 1
-    except (OSError, SyntaxError, KeyError) as e:
-        print(f'py2v: cannot read source: {type(e).__name__}: {e}')
-        return 1
-    return 0
+        except Unsupported as e:
+            print(f'py2v: {mod}: unsupported construct: {e}')
+            poison(mod, f'unsupported construct: {e}')
+            failed += 1
+        except Exception as e:  # noqa: BLE001  (fail closed: whatever went wrong, the old output must not survive)
+            print(f'py2v: {mod}: cannot translate the source: {type(e).__name__}: {e}')
+            poison(mod, f'cannot translate the source: {type(e).__name__}: {e}')
+            failed += 1
+    return 1 if failed else 0
 
 
 if __name__ == '__main__':
